@@ -530,7 +530,13 @@ class Check:
         """ddmin over op lines, keeping 'reset' first; ops that reference undefined registers make the harness
         panic on that line only, which `pred` treats as not-failing."""
         body = [l for l in lines if l != "reset"]
-        keep = self.ctx.ddmin(body, lambda sub: pred(["reset"] + sub))
+        budget = [60]           # predicate evaluations (each costs two process runs)
+        def limited(sub):
+            if budget[0] <= 0:
+                return False
+            budget[0] -= 1
+            return pred(["reset"] + sub)
+        keep = self.ctx.ddmin(body, limited)
         return ["reset"] + keep
 
     def report_seq(self, lines, sig, summary, idx, origin):
@@ -539,7 +545,8 @@ class Check:
             return
         small = lines
         try:
-            small = self.shrink_seq(lines, lambda sub: sig in self.seq_fails(sub)[0])
+            if origin != "corpus" and ctx.known_signature(sig) is None:      # corpus cases are already minimal
+                small = self.shrink_seq(lines, lambda sub: sig in self.seq_fails(sub)[0])
         except Exception as e:          # shrinking is best effort
             ctx.log("shrink failed:", e)
         rc, hout, _ = ctx.run_lines([self.h], small, timeout=120)
@@ -710,7 +717,11 @@ class Check:
                         feats.add(x[1])
                 else:
                     b = x[1].split(":")[0]
-                    if b in ("trim", "trimStart", "trimEnd", "jrt", "replaceAll"):
+                    if b in ("trim", "trimStart", "trimEnd"):
+                        feats.add("trim")
+                    elif b == "jrt":
+                        feats.add("U.jp")
+                    elif b == "replaceAll":
                         feats.add(b)
                 return False
             has_tok(t, f)
@@ -725,7 +736,7 @@ class Check:
             # class has no known diagnosis)
             pc = self.preclass(it)
             n, diag = self.blamed.get(pc, (0, set()))
-            if pc and n >= 2 and diag and all(ctx.known_signature(x) is not None for x in diag):
+            if pc and n >= 1 and diag and all(ctx.known_signature(x) is not None for x in diag):
                 self.undiagnosed[pc] = self.undiagnosed.get(pc, 0) + 1
                 return
             sig2, node = self.refine_units_sig(it, out)
@@ -883,7 +894,7 @@ def main(ctx):
         ctx.violation("units-differ-from-spec:replaceAll", "%s -> %s" % (probe, out), {"kind": "input", "ops": [probe], "observed": out})
     ctx.log('corpus done')
     # ---------------- stream A
-    nseq = 500 if quick else 6000
+    nseq = 400 if quick else 3000
     seqs = [gen_sequence(rng, rng.choice([8, 16, 30])) for _ in range(nseq)]
     dis = ck.run_sequences(seqs, "generated")
     if dis and ck.model_ok:
@@ -903,7 +914,7 @@ def main(ctx):
     ctx.log('stream A done')
     # ---------------- stream B
     g = Gen(rng, ctx.tier)
-    ntree = 1000 if quick else 12000
+    ntree = 800 if quick else 6000
     trees, pals = [], []
     for _ in range(ntree):
         pal = g.palette()
